@@ -302,6 +302,18 @@ theorem step_rc (s : PState) (op : Op) (h : RC s) : RC (step s op) := by
         simp only [holds] at this
         by_cases e : o.ref = some q <;> simp [e] at this hd ⊢ <;> omega
       · simp only [hk, if_false]; exact hq
+  | intoInner f =>
+    simp only [step]
+    cases ht : take f s.owners with
+    | none => exact hq
+    | some p =>
+      obtain ⟨o, rest⟩ := p
+      simp only []
+      have := take_own q f _ o rest ht
+      by_cases hk : o.kind = .future
+      · simp only [hk, if_true, doClose_bal, doClose_owners, holds] at this ⊢
+        by_cases e : o.ref = some q <;> simp [e] at this ⊢ <;> omega
+      · simp only [hk, if_false]; exact hq
   | setDefault t c => exact hq
 
 /-- **C03.refcount** — for EVERY finite program over the Span API, run from the empty state under
